@@ -214,6 +214,10 @@ func (c *Ctx) liaBinop(op token.Token, w int, signed bool, x, y string, yT types
 		if !signed {
 			c.assume(sx("<=", r, sx("+", x, y)))
 		}
+		if !signed && w == 8 {
+			// bytes: the exact bitwise definition (linear: div/mod by constants)
+			c.assume(eq(r, sx("xor8_exact", x, y)))
+		}
 		return r, ""
 	case token.AND_NOT:
 		r := c.uf("andnot", w, signed, x, y)
